@@ -977,6 +977,43 @@ func c19Generate(a vh.Args, rng *vh.Rand) []*c19Case {
 			}
 		}
 	}
+	// a root entry that is a file, symlink or device is the only entry of its archive: followed by a named
+	// entry / a nameless entry / a goodbye / the end; and the same behind a root directory for contrast
+	for k := 0; k < 4; k++ {
+		leafTail := func(kind int) []byte {
+			switch kind {
+			case 0:
+				return append(le64(16+3, desync.CaFormatPayload), 1, 2, 3)
+			case 1:
+				return c19Str(desync.CaFormatSymlink, "t")
+			case 2:
+				return le64(32, desync.CaFormatDevice, 1, 2)
+			default:
+				return nil // a directory
+			}
+		}
+		kind := []string{"file", "symlink", "device", "directory"}[k]
+		root := append(c19ValidEntry(rng), leafTail(k)...)
+		named := append(c19Str(desync.CaFormatFilename, "a"), append(c19ValidEntry(rng), leafTail(rng.Intn(3))...)...)
+		namedDir := append(c19Str(desync.CaFormatFilename, "d"), c19ValidEntry(rng)...)
+		nameless := append(c19ValidEntry(rng), leafTail(rng.Intn(3))...)
+		gb := c19Goodbye(0, rng)
+		cat := func(parts ...[]byte) []byte {
+			var out []byte
+			for _, p := range parts {
+				out = append(out, p...)
+			}
+			return out
+		}
+		add("archive", "leaf-root@"+kind+",alone", cat(root))
+		add("archive", "leaf-root@"+kind+",goodbye", cat(root, gb))
+		add("archive", "leaf-root@"+kind+",named-entry", cat(root, named, gb))
+		add("archive", "leaf-root@"+kind+",named-directory", cat(root, namedDir, gb, gb))
+		add("archive", "leaf-root@"+kind+",nameless-entry", cat(root, nameless))
+		add("archive", "leaf-root@"+kind+",goodbye-then-named-entry", cat(root, gb, named, gb))
+		add("archive", "leaf-root@"+kind+",two-named-entries", cat(root, named, named, gb))
+		add("archive", "named-first-entry@"+kind, cat(c19Str(desync.CaFormatFilename, "x"), root, named, gb))
+	}
 	// 3. random bytes, random bytes behind a valid type word
 	nrand := 60
 	if thorough {
